@@ -55,7 +55,7 @@ func (c c04Case) encode(d m.Dialect) ([]byte, error) {
 
 // inflationMustReject: the packet really cannot hold the claimed number of elements.
 func inflationMustReject(p m.Packet, b []byte, k int) bool {
-	count := int(b[0]&0x1f) // already inflated
+	count := int(b[0] & 0x1f) // already inflated
 	if count < k {
 		return false // wrapped past 31
 	}
@@ -282,6 +282,7 @@ func genVariantEncoding(t *rapid.T) (string, []byte) {
 }
 
 func TestC04(t *testing.T) {
+	defer harness.Uncaught(t)
 	harness.RapidCheck(t, harness.Scale(6000, 50000), 4, func(rt *rapid.T) {
 		big := rapid.IntRange(0, 49).Draw(rt, "big?") == 0
 		c := genC04Case(rt, big)
@@ -289,7 +290,7 @@ func TestC04(t *testing.T) {
 		if !nt {
 			// non-trivial: the encoding is not what pion's own Marshal would produce for the value
 			enc, _ := c.encode(m.Strict)
-			own, err := conv.ToPion(c.P).Marshal()
+			own, err := safeMarshal(conv.ToPion(c.P))
 			nt = err != nil || !bytes.Equal(own, enc)
 		}
 		cl := []string{"variant:" + c.Variant, "kind:" + string(c.P.Kind)}
